@@ -128,6 +128,9 @@ func runWalkLayers(p *Prog) *walkLayers {
 							if s, ok := f.Args[0].(Sym); ok && isReflectValue(s.T) {
 								groupMask |= r.Env.get(s.K) // kind set by default rules (valid container elements)
 							}
+							if cz, ok := f.Args[0].(Cst); ok && cz.V == nil && isReflectValue(cz.T) {
+								groupMask |= 1 // the zero Value registered as a group member: kind Invalid
+							}
 						}
 					}
 				}
